@@ -27,7 +27,8 @@ STATE_MEASURE = "distinct (family, sequence of op kinds with outcomes) histories
 COMPONENTS_REAL = ["all 18 gemclus estimators (fit, fit_predict, predict, predict_proba, score, path), sklearn clone/get_params/set_params",
                    "scikit-learn optimisers (real updates)", "gemclus GEMINIs, compiled KAURI split finder"]
 COMPONENTS_STUB = ["crash injection: BaseOptimizer.update_params raising at step k, SimGemini.evaluate raising at call k, SimKernel raising at call k",
-                   "the user (op sequence) and the user's own model of the hyper-parameters it set"]
+                   "the user (op sequence) and the user's own model of the hyper-parameters it set",
+                   "crash at an arbitrary point: seams.LineCrash (sys.settrace) raises when the k-th source line of the library is about to run, in interrupted calls of the history"]
 ASSUMPTIONS = ["integer random_state only (random_state=None is out of the property's scope)",
                "bitwise comparison: both sides run the same floating-point program in the same process with one BLAS thread",
                "an interrupted path() may leave alpha changed (the property promises hyper-parameter immutability for fit only); "
